@@ -191,6 +191,8 @@ type fctx struct {
 	ifaceLocals map[*types.Var]bool    // local interface variables bound once to a result of an opaque call
 	contK   func() string              // what an unlabelled continue produces in the innermost loop (nil: not allowed here)
 	inLoop  int                        // nesting depth of loops at the current statement
+	recCl   map[types.Object]*recClosure // recursive closures in scope (recfn.go)
+	recFuel string                     // inside the body of a recursive closure: the fuel its recursive calls get
 }
 
 // addOpq registers an opaque parameter of the function being translated; one name must have
@@ -665,7 +667,7 @@ func (c *fctx) function() {
 	// results
 	u.resTys = c.effectiveResults(d, sig)
 	c.resTys = u.resTys
-	u.fueled = c.needsFuel(d.Body)
+	u.fueled = c.needsFuel(d.Body) || hasRecClosure(d.Body)
 	var rts []string
 	for _, v := range ptrs {
 		rts = append(rts, c.coqTy(c.typeOf(v.Type(), v.Pos()), v.Pos()))
@@ -853,7 +855,9 @@ func (c *fctx) assigned(n ast.Node) []envKey {
 			add(c.keysOf(s.X))
 		case *ast.ExprStmt:
 			if call, ok := s.X.(*ast.CallExpr); ok {
-				if o := c.mutatedReceiver(call); o != nil {
+				if rc := c.recClosureOf(call); rc != nil {
+					add(rc.w) // a call of a recursive closure updates the closure's state
+				} else if o := c.mutatedReceiver(call); o != nil {
 					add(c.allKeys(o))
 				} else if id, ok := call.Fun.(*ast.Ident); ok && id.Name == "copy" && len(call.Args) == 2 {
 					if b, isB := c.info.Uses[id].(*types.Builtin); isB && b.Name() == "copy" {
@@ -1089,6 +1093,9 @@ func (c *fctx) stmts(list []ast.Stmt, k func() string) string {
 		}
 		return c.retK(vals)
 	case *ast.DeclStmt:
+		if out, ok := c.recClosureDecl(s, rest, k); ok {
+			return out
+		}
 		gd, ok := s.Decl.(*ast.GenDecl)
 		if ok && gd.Tok == token.CONST {
 			return next() // local constants are folded by go/types at their uses
@@ -1157,6 +1164,9 @@ func (c *fctx) stmts(list []ast.Stmt, k func() string) string {
 		call, ok := s.X.(*ast.CallExpr)
 		if !ok {
 			c.fail(s.Pos(), "expression statement")
+		}
+		if rc := c.recClosureOf(call); rc != nil {
+			return c.recCall(rc, call, next)
 		}
 		if c.u.fueled {
 			if cu := c.fueledCallee(call); cu != nil {
